@@ -249,6 +249,17 @@ def m_code_default_dot(draw, ir):
     p["_dflts"] = st.just(p["default"])
 
 
+MIXED_UNIONS = ("Union[int, np.ndarray]", "Optional[Union[float, np.ndarray]]", "Tuple[float, tf.data.Dataset]", "Union[bool, Optimizer]")
+
+
+def m_mixed_union(draw, ir):
+    """A type no command line can express that mixes a non-str scalar with a dotted / unknown name; no default."""
+    p = _ensure_param(draw, ir)
+    p["typ"] = draw(st.sampled_from(MIXED_UNIONS))
+    p.pop("default", None)
+    p["_dflts"] = None
+
+
 def m_int_under_nonscalar_type(draw, ir):
     p = _ensure_param(draw, ir)
     p["typ"] = draw(st.sampled_from(("Optional[int]", "Union[int, float]", "Literal[-1, 0, 1]")))
